@@ -9,6 +9,7 @@ import (
 	"strings"
 	"time"
 
+	xsd "git.sr.ht/~mariusor/go-xsd-duration"
 	"github.com/valyala/fastjson"
 )
 
@@ -141,9 +142,26 @@ func JSONGetTime(val *fastjson.Value, prop string) time.Time {
 	return t
 }
 
+// parseXSDDuration decodes the xsd:duration form written by JSONWriteDurationProp.
+// The parser indexes past the end of truncated values, hence the recover.
+func parseXSDDuration(str []byte) (d time.Duration, ok bool) {
+	defer func() {
+		if r := recover(); r != nil {
+			d, ok = 0, false
+		}
+	}()
+	if err := xsd.Unmarshal(str, &d); err != nil {
+		return 0, false
+	}
+	return d, true
+}
+
 func JSONGetDuration(val *fastjson.Value, prop string) time.Duration {
 	if str := val.Get(prop).GetStringBytes(); len(str) > 0 {
-		// TODO(marius): this needs to be replaced to be compatible with xsd:duration
+		if d, ok := parseXSDDuration(str); ok {
+			return d
+		}
+		// fall back to Go's duration syntax, which older versions accepted
 		d, _ := time.ParseDuration(string(str))
 		return d
 	}
